@@ -117,3 +117,13 @@ Fixpoint for_loop_rev {S R} (body : N -> S -> outcome (step S R)) (hi : N) (n : 
 Definition checked_add (w a b : N) : option N := if a + b <? 2 ^ w then Some (a + b) else None.
 Definition zimul (w : N) (a b : Z) : outcome Z :=
   if zin w (a * b)%Z then Val (a * b)%Z else Fault Overflow.
+
+(* l.binary_search_by_key(&k, |(x, _)| *x).expect(..): the index of an entry whose first component is k
+   (the standard library returns the index of SOME matching entry of a slice sorted by the key; on tables whose
+   keys are sorted and distinct, which is what every theorem assumes, it is this one), Fault Panic if none *)
+Fixpoint find_fst {B} (l : list (N * B)) (k : N) (i : N) : option N :=
+  match l with
+  | [] => None
+  | (x, _) :: l' => if x =? k then Some i else find_fst l' k (i + 1)
+  end.
+Definition obsearch_fst {B} (l : list (N * B)) (k : N) : outcome N := ounwrap (find_fst l k 0).
